@@ -31,7 +31,7 @@ NAMESETS = [["2-clique"], ["2-clique", "3-clique"], ["2-clique-blue", "2-clique-
 
 
 def gen_cases(tier, seed):
-    n = 300 if tier == "quick" else 5000
+    n = 300 if tier == "quick" else 30000
     return [{"seed": seed * 100193 + i} for i in range(n)]
 
 
@@ -171,12 +171,12 @@ def run_case(case):
             swapped = 0
             es = list(G.edges(data=True))
             for _ in range(20):
-                (a, b, d1), (c, d, d2) = rng.sample(es, 2)
-                if d1[NN.TOPOLOGY] != d2[NN.TOPOLOGY] or len({a, b, c, d}) < 4 or G.has_edge(a, d) or G.has_edge(c, b):
+                (a, b, _), (c, d, _) = rng.sample(es, 2)
+                if len({a, b, c, d}) < 4 or G.has_edge(a, d) or G.has_edge(c, b) or not (G.has_edge(a, b) and G.has_edge(c, d)):
                     continue
-                if not (G.has_edge(a, b) and G.has_edge(c, d)):
+                attrs1, attrs2 = dict(G.edges[a, b]), dict(G.edges[c, d])      # current attributes (the sampled list may be stale)
+                if attrs1[NN.TOPOLOGY] != attrs2[NN.TOPOLOGY]:
                     continue
-                attrs1, attrs2 = dict(G.edges[a, b]), dict(G.edges[c, d])
                 G.remove_edge(a, b); G.remove_edge(c, d)
                 G.add_edge(a, d); G.edges[a, d].update(attrs1)
                 G.add_edge(c, b); G.edges[c, b].update(attrs2)
